@@ -280,6 +280,7 @@ fn run_cases(cases: Vec<CrashCase>, cfg: &Cfg, out: &mut Out, generation: u32, s
     results.sort_by_key(|r| r.0);
     for (i, v, log) in results {
         out.count(&format!("images_gen{generation}"));
+        out.count("evaluations");
         if let Some(r) = v.recovered {
             out.count(if r + 1 == cases[i].allowed.points.len() { "recovered_newest_allowed" } else { "recovered_older_allowed" });
         }
